@@ -1971,3 +1971,11 @@ def involves(t, names, seen=None):
     if t.item is not None and involves(t.item, names):
         return True
     return any(involves(m, names) for m in t.members)
+
+
+def involves_variety(t, variety):
+    if t.variety == variety:
+        return True
+    if t.item is not None and involves_variety(t.item, variety):
+        return True
+    return any(involves_variety(m, variety) for m in t.members)
